@@ -848,6 +848,43 @@ func runPure(seed int64, n int) {
 	fmt.Fprintf(out, "S\tpure\ttriggers=%d\tcalls=%d\tbad=%d\n", n, total, bad)
 }
 
+// runOne replays a single recorded case (and a chain of three from it).
+func runOne(ex, locName string, prev int64) {
+	loc := time.UTC
+	zid := "utc"
+	var off int
+	if n, _ := fmt.Sscanf(locName, "fx%d", &off); n == 1 {
+		loc = time.FixedZone(locName, off)
+		zid = locName
+		fmt.Fprintf(out, "Z\t%s\t%d\n", zid, off)
+	} else if locName != "UTC" && locName != "" {
+		z, err := buildZone(locName)
+		if err != nil {
+			fmt.Fprintf(out, "L\t%s\t%v\n", locName, err)
+			return
+		}
+		loc = z.loc
+		zid = z.name
+		fmt.Fprintln(out, z.line())
+	} else {
+		fmt.Fprintf(out, "Z\tutc\t0\n")
+	}
+	tr, err := quartz.NewCronTriggerWithLoc(ex, loc)
+	if err != nil {
+		fmt.Fprintf(out, "P\t0\t%s\t%v\n", ex, err)
+		return
+	}
+	ftoks := fieldTokens(quartz.VerifTriggerFields(tr))
+	for c := 0; c < 3; c++ {
+		res := fire(tr, prev, fmt.Sprintf("%s\t%s\t%d", ex, locName, prev))
+		emitCase(fmt.Sprintf("0.%d", c), zid, prev, res, ftoks, ex, locName, "replay", "-")
+		if !strings.HasPrefix(res, "F") {
+			break
+		}
+		fmt.Sscan(res[1:], &prev)
+	}
+}
+
 func main() {
 	if len(os.Args) < 2 {
 		fmt.Fprintln(os.Stderr, "usage: cronh fixed|zone|cal|dayn|pure [flags]")
@@ -861,6 +898,9 @@ func main() {
 	zones := fs.String("zones", "", "")
 	ystep := fs.Int("ystep", 1, "")
 	brute := fs.Bool("brute", false, "")
+	oneExpr := fs.String("expr", "", "")
+	oneLoc := fs.String("loc", "UTC", "")
+	onePrev := fs.Int64("prev", 0, "")
 	_ = fs.Parse(os.Args[2:])
 	go watchdog()
 	defer out.Flush()
@@ -875,6 +915,8 @@ func main() {
 		runDayN(*ystep)
 	case "pure":
 		runPure(*seed, *n)
+	case "one":
+		runOne(*oneExpr, *oneLoc, *onePrev)
 	default:
 		os.Exit(2)
 	}
